@@ -25,11 +25,13 @@ import (
 // and keys/values are copied on the way in and out (MemDB stores and returns the caller's slices).
 
 type unit struct {
-	DB    string `json:"db"`
-	Op    string `json:"op"`
-	Key   string `json:"key"`
-	N     int    `json:"n,omitempty"` // entries of a batch
-	Class string `json:"class,omitempty"`
+	DB       string `json:"db"`
+	Op       string `json:"op"`
+	Key      string `json:"key"`
+	N        int    `json:"n,omitempty"` // entries of a batch
+	Class    string `json:"class,omitempty"`
+	Wal      int64  `json:"-"` // size of the flat mode's undo file when the unit was attempted
+	WalAfter int64  `json:"-"` // ... and right after it was applied
 }
 
 type opBudgetExceeded struct{ ops int64 }
@@ -42,6 +44,8 @@ type ctl struct {
 	record  bool
 	log     []unit
 	gate    *gate
+
+	walPath string // flat mode: the undo file whose size is sampled at every unit
 
 	ops     int64 // all operations (reads, writes, iterator creations), atomic
 	deletes int64
@@ -137,12 +141,23 @@ func (c *ctl) write(db, op string, key []byte, n int, apply func()) {
 	c.seq++
 	allowed := c.budget < 0 || c.seq <= c.budget
 	if c.record {
-		c.log = append(c.log, unit{DB: db, Op: op, Key: keyLabel(key), N: n, Class: cls})
+		u := unit{DB: db, Op: op, Key: keyLabel(key), N: n, Class: cls}
+		if c.walPath != "" {
+			if fi, err := os.Stat(c.walPath); err == nil {
+				u.Wal = fi.Size()
+			}
+		}
+		c.log = append(c.log, u)
 	}
 	if allowed {
 		apply()
 	} else {
 		c.dropped++
+	}
+	if c.record && c.walPath != "" {
+		if fi, err := os.Stat(c.walPath); err == nil {
+			c.log[len(c.log)-1].WalAfter = fi.Size()
+		}
 	}
 	c.mu.Unlock()
 	if g != nil && cls != "" {
